@@ -162,3 +162,49 @@ Example C03_dhp_new_extend_same_input :
   snd (LV.Proofs.DhpSeqThm.seq_run (LV.Model.Dhp.mkCfg 4 2 8 false 100 1 false) 0 LV.Proofs.DhpSeqThm.old_witness
          (LV.Proofs.DhpSeqThm.seq_init (LV.Model.Dhp.mkCfg 4 2 8 false 100 1 false))) = [8%nat].
 Proof. exact LV.Proofs.DhpSeqThm.dhp_new_extend_same_input. Qed.
+
+(** * DHP, every schedule, WITHOUT the free-list hypothesis
+
+    [flbad (hist (Conc.trace conf)) = false] is discharged by LV.Proofs.DhpFlThm.dhp_flbad_false (the open-world
+    FreeList invariant of C21 composed with the DHP block-ownership invariants; see Properties_C02.v).  The only new
+    side condition is C21's thread bound (fewer than 2^31 - 3 threads: the 31-bit reference count of a free-list
+    node); the others were already hypotheses of the conditional theorems above ("every object is retired at most once"
+    is part of the property itself; [dhp_flbad_false] does not need it). *)
+From LV Require Proofs.DhpFlThm.
+Section DHP_unconditional.
+  Import Model.DhpLang Model.Dhp Proofs.DhpBase Proofs.DhpHist Proofs.DhpProofsC03 Proofs.DhpFlThm.
+
+  Theorem C03_dhp_dispose_at_most_once_unconditional : forall fuel (c : cfg) ths conf,
+    (4 <= c_RB c)%nat -> c_old c = false -> c_oldtail c = false ->
+    Z.of_nat (List.length ths) + 3 < 2147483648 ->
+    Conc.reach (init_cfg fuel c ths) conf ->
+    NoDup (flat_map (fun e => retired_ev (snd e)) (Conc.trace conf)) ->
+    NoDup (disposed_of (Conc.trace conf)).
+  Proof. exact dhp_dispose_at_most_once_unconditional. Qed.
+
+  Theorem C03_dhp_disposed_were_retired_unconditional : forall fuel (c : cfg) ths conf,
+    (4 <= c_RB c)%nat -> c_old c = false -> c_oldtail c = false ->
+    Z.of_nat (List.length ths) + 3 < 2147483648 ->
+    Conc.reach (init_cfg fuel c ths) conf ->
+    NoDup (flat_map (fun e => retired_ev (snd e)) (Conc.trace conf)) ->
+    incl (disposed_of (Conc.trace conf)) (flat_map (fun e => retired_ev (snd e)) (Conc.trace conf)).
+  Proof. exact dhp_disposed_were_retired_unconditional. Qed.
+
+  (** non-vacuity: the hypotheses hold of a concrete reachable configuration of the program of [C03_dhp_nonvacuous]
+      (detach with a guarded object left behind, help_scan by the other thread), both threads called the disposer *)
+  Example C03_dhp_unconditional_nonvacuous :
+    let c := mkCfg 4 2 4 false 200 1 false in
+    let ths := map decode_ops
+                 [[[1]; [15;0;1]; [9;5]; [9;6]; [2]; [8;0;2]];
+                  [[1]; [3;0]; [5;0;5]; [8;0;1]; [15;0;2]; [6;0]; [2]]] in
+    let conf := fst (Conc.run 5000 0 [] (init_cfg 5000 c ths)) in
+    (4 <= c_RB c)%nat /\ c_old c = false /\ c_oldtail c = false /\ Z.of_nat (List.length ths) + 3 < 2147483648 /\
+    Conc.reach (init_cfg 5000 c ths) conf /\
+    flat_map (fun e => retired_ev (snd e)) (Conc.trace conf) = [5%nat; 6%nat] /\ disposed_of (Conc.trace conf) = [6%nat; 5%nat].
+  Proof.
+    cbv zeta. split; [vm_compute; auto|]. split; [reflexivity|]. split; [reflexivity|]. split; [vm_compute; reflexivity|].
+    split; [apply Conc.run_reach|]. split; vm_compute; reflexivity.
+  Qed.
+End DHP_unconditional.
+Print Assumptions C03_dhp_dispose_at_most_once_unconditional.
+Print Assumptions C03_dhp_disposed_were_retired_unconditional.
